@@ -41,8 +41,8 @@ def make_units(tier):
     return units
 
 
-_PAT = bytes((i * 7 + 3) % 251 for i in range(80000))
-_PATM = bytes((i * 11 + 5) % 241 for i in range(80000))
+_PAT = bytes((i * 7 + 3) % 251 for i in range(140000))
+_PATM = bytes((i * 11 + 5) % 241 for i in range(140000))
 
 
 def variants(cls):
